@@ -1,0 +1,25 @@
+//go:build verif
+
+// Verification contracts for the operator's metadata rendering and bucket naming (C39; comment-only; read by
+// /verif/govc). This file contains no executable code.
+
+package operator
+
+// ---- bucket names -------------------------------------------------------------------------------------------
+// S3 bucket name characters used here: lower-case letters, digits and '-' (dots are never produced).
+//@ spec func bucketChar(c uint8) bool = (97 <= c && c <= 122) || (48 <= c && c <= 57) || c == 45
+//@ spec func bucketAlnum(c uint8) bool = (97 <= c && c <= 122) || (48 <= c && c <= 57)
+//@ spec func validBucketShape(s string) bool = len(s) >= 1 && len(s) <= 63 && bucketAlnum(s[0]) && bucketAlnum(s[len(s)-1]) && (forall i int :: 0 <= i && i < len(s) ==> bucketChar(s[i]))
+
+//@ func sanitizeBucketName
+//@   ensures [C39.bucket_charset] forall i int :: 0 <= i && i < len(result) ==> bucketChar(result[i])
+//@   ensures [C39.bucket_edges] len(result) >= 1 && bucketAlnum(result[0]) && bucketAlnum(result[len(result)-1])
+//@   ensures [C39.bucket_max_length] len(result) <= 63
+//@   loop 1 invariant len(b.buf) <= 63
+//@   loop 1 invariant forall p int :: off(b.buf) <= p && p < off(b.buf) + len(b.buf) ==> bucketChar(b.buf[p - off(b.buf)])
+
+// ---- replica ids ---------------------------------------------------------------------------------------------
+//@ func buildReplicaIDs
+//@   requires replicaCount <= 1073741824
+//@   ensures [C39.replica_ids_exact] (replicaCount <= 0 ==> len(result) == 0) && (replicaCount > 0 ==> len(result) == replicaCount) && (forall k int :: 0 <= k && k < len(result) ==> result[k] == k)
+//@   loop 1 invariant 0 <= i && i <= replicaCount && len(out) == replicaCount && (forall k int :: 0 <= k && k < i ==> out[k] == k)
